@@ -105,6 +105,17 @@ pub fn parse_run(s: &str) -> Value {
                                         fused &= lo <= n && hi.map(|h| h >= n).unwrap_or(true);
                                         fused &= unq.clone().count() == n && unq.clone().last() == out.chars().last();
                                         fused &= unq.clone().nth(n / 2) == out.chars().nth(n / 2);
+                                        // ... and leave the iterator where repeated next() would: what follows a
+                                        // skip (nth / skip / step_by) is the rest of the characters, in both
+                                        // unquoting paths
+                                        for j in [0usize, 1, 2, n / 2, n.saturating_sub(1), n] {
+                                            let mut u2 = unq.clone();
+                                            fused &= u2.nth(j) == out.chars().nth(j);
+                                            let rest: String = out.chars().skip(j + 1).collect();
+                                            fused &= u2.to_cow() == rest && u2.clone().collect::<String>() == rest;
+                                            fused &= unq.clone().skip(j).collect::<String>() == out.chars().skip(j).collect::<String>();
+                                        }
+                                        fused &= unq.clone().step_by(2).collect::<String>() == out.chars().step_by(2).collect::<String>();
                                         fused &= unq.clone().fold(String::new(), |mut a, c| { a.push(c); a }) == out;
                                         let mut half = unq.clone();
                                         for _ in 0..n / 2 { half.next(); }
